@@ -14,7 +14,7 @@ from common import Machinery
 
 def describe(sc):
     if sc["kind"] == "pool":
-        return "pool history %s pb=%s" % ([(b["n"], b.get("panics", []), ("ext" if b.get("extend") else "bc") + ("+bomb" if b.get("bomb") else "")) for b in sc["history"]], sc.get("pb"))
+        return "pool history %s pb=%s" % ([(b["n"], b.get("panics", []), ("ext" if b.get("extend") else "bc") + ("+bomb" if b.get("bomb") else "") + ("@helper" if b.get("caller") else "")) for b in sc["history"]], sc.get("pb"))
     if sc["kind"] == "loop":
         c = sc["case"]
         return "loop entry=%d shapes=%d->%d T=%d n=%s s=%s panic=%s pb=%s" % (
